@@ -85,6 +85,12 @@ func (rep *Report) nativePhase() error {
 		refs := map[int]*caseRef{}
 		files := map[string]bool{}
 		var fileList []string
+		for _, h := range rep.Spec.Harnesses {
+			if h.Pkg == pkg && !files[h.File] {
+				files[h.File] = true
+				fileList = append(fileList, h.File)
+			}
+		}
 		add := func(r *HarnessRun, p PathResult, kind, label string, model map[string]uint64) {
 			id := len(cases)
 			cases = append(cases, nativeCase{ID: id, Harness: r.Spec.Name, Inputs: model, Chooses: p.Chooses, Params: r.Params, Kind: kind})
@@ -439,7 +445,14 @@ func (rep *Report) finish(out string, partial bool) int {
 	for _, k := range knownLines {
 		fmt.Println(k)
 	}
-	for _, p := range problems {
+	for i, p := range problems {
+		if i >= 12 {
+			fmt.Printf("... %d more problem lines (see evidence file)\n", len(problems)-i)
+			break
+		}
+		if len(p) > 600 {
+			p = p[:600] + "…"
+		}
 		fmt.Println(p)
 	}
 	for _, v := range violations {
